@@ -394,13 +394,34 @@ func (e *env) prioPlan(round, p int) prioPlan {
 	rng := rand.New(rand.NewSource(e.seed + int64(round)*15485863))
 	plan := prioPlan{make([]int, p), make([]time.Duration, p), make([]bool, p)}
 	perm := rng.Perm(200)
+	small := rng.Perm(p) // every other round: the compact range 0..p-2, so that the adjacent pair (0, 1) — where an off-by-one in the priority encoding collapses two priorities — competes
 	for i := 1; i < p; i++ {
 		plan.prio[i] = perm[i] + 1 // distinct, 1..200
+		if round%2 == 0 && p > 2 {
+			plan.prio[i] = small[i] % (p - 1)
+			for j := 1; j < i; j++ { // keep them distinct
+				if plan.prio[j] == plan.prio[i] {
+					plan.prio[i] = p - 1
+				}
+			}
+		}
 		if rng.Intn(100) < 15 {
 			plan.late[i] = true
 			plan.offset[i] = time.Duration(450+rng.Intn(141)) * time.Millisecond
 		} else {
 			plan.offset[i] = time.Duration(rng.Intn(200000)) * time.Microsecond
+		}
+	}
+	if round%2 == 0 && p > 2 {
+		// the lowest priority arrives first and the next one clearly later (both well before the release): the order in which
+		// only a priority comparison — not arrival order — gives the right hand-over
+		for i := 1; i < p; i++ {
+			if plan.prio[i] == 0 {
+				plan.late[i], plan.offset[i] = false, time.Duration(rng.Intn(20000))*time.Microsecond
+			}
+			if plan.prio[i] == 1 {
+				plan.late[i], plan.offset[i] = false, time.Duration(100000+rng.Intn(80000))*time.Microsecond
+			}
 		}
 	}
 	return plan
